@@ -31,6 +31,9 @@ THEOREMS = [
     "Pedal.Sections.concat_splitGoNL",
     "Pedal.Sections.lineAt_section",
     "Pedal.Sections.joinLines_splitLines",
+    # tie to the translated arithmetic of next_section (Gen/SectionsProgram.lean, regenerated on every run)
+    "Pedal.Sections.sections_ir_agrees",
+    "Pedal.Sections.runG_eq_run",
 ]
 NOTES = [
     "the regular-expression engine is a parameter: the model receives, for every line, whether Python's re matched "
@@ -457,6 +460,7 @@ def replay(payload):
 
 
 if __name__ == "__main__":
+    from translate_sections import translate
     sys.exit(run_check("C17", proof_modules=["PedalProofs.C17"], theorems=THEOREMS, driver_exe="driver_c17",
-                       correspond=correspond, search=search, replay=replay, model_notes=NOTES,
+                       translate=translate, correspond=correspond, search=search, replay=replay, model_notes=NOTES,
                        leanchecker_modules=["PedalProofs.C17"]))
